@@ -104,3 +104,23 @@ func init() {
 		seed("C14", "C14-r5-4", "R14.9", "does not read the previous configuration"),
 	)
 }
+
+// Round 6 (a second sample of minimal changes, "far from the mechanism"): the ones missed at the first run, and F18.
+func init() {
+	seed := func(prop, id, rule, construct string) variant {
+		return variant{Prop: prop, Name: "seeded-" + id + "-" + prop, Patch: "seeded/" + id + "/patch.diff", Rule: rule, Construct: construct}
+	}
+	lx := "lexer/lexer.go"
+	addVariants(
+		seed("C02", "C02-r6-4", "R2.5", "the white-space set"),
+		seed("C04", "C04-r6-4", "R4.3", "calls the expression step"),
+		seed("C16", "C16-r6-3", "R16.3", "nothing is parsed behind the pop"),
+		seed("C15", "C06-r6-3", "R15.6", "is never the blank-line marker"),
+		variant{Prop: "C15", Name: "empty-comment-is-the-blank-line-marker-again", File: lx,
+			Old:  "\t\t\tif text == \"\" {\n\t\t\t\t// the empty string is the blank-line marker: a comment without text keeps one blank\n\t\t\t\ttext = \" \"\n\t\t\t}\n",
+			New:  "",
+			Rule: "R15.6", Construct: "is never the blank-line marker"},
+		variant{Prop: "C15", Name: "benign-empty-comment-test-by-length", File: lx,
+			Old: "\t\t\tif text == \"\" {", New: "\t\t\tif len(text) == 0 {", Benign: true},
+	)
+}
